@@ -454,7 +454,7 @@ def rule_V(ctx):
     second matching of the same track (other radius, other network): HMM.estimate interpreted twice on the same decoder and track
     with different tables, and in the position mode map-matching uses"""
     from . import c09
-    c09.rule_V(ctx, rid='C10.V', only=('reuse', 'observation modes'))
+    c09.rule_V(ctx, rid='C10.V', only=('reuse', 'observation modes', 'single epoch'))
 
 
 RULES = [
